@@ -36,7 +36,8 @@ Inductive wrec :=
 | WUnknownArgs (args : list string)
 | WEmptyDB (db : string)
 | WUnknownDirective (f : path) (u : udir)
-| WMissingInclude (e : event) (spelling : string).
+| WMissingInclude (e : event) (spelling : string)
+| WMissingForced (f : path) (n : path).
 
 (* DirectiveNode.spelling *)
 Definition spelling_of (toks : list (bool * string)) : string :=
@@ -67,6 +68,7 @@ Definition msg_of (w : wrec) : string :=
   | WMissingInclude e sp =>
       rpath (ev_file e) ++ ":" ++ dec (ev_tag e) ++ ": " ++ kind_label (ev_angle e) ++ " '" ++ rname (ev_name e)
       ++ "' not found" ++ nl ++ pad5 (dec (ev_tag e)) ++ " | " ++ sp
+  | WMissingForced f n => rpath f ++ ": forced include '" ++ rname n ++ "' not found"
   end.
 
 (* ---------- FileParser.insert_directive_node ---------- *)
@@ -278,7 +280,15 @@ Fixpoint first_build_error (c : cfs) (files : list path) : option string :=
       end
   end.
 
-Record run_out := { o_db : list wrec; o_parse : list wrec; o_inc : list wrec }.
+(* the -include loop of finder.find, as far as its warning goes: each name is looked up from the
+   directory of the unit's file among the unit's directories.  (The code asks the memoised
+   Platform.find_include_file; on a fresh Platform whose directories do not change the answer is
+   the un-memoised search - C04_memo_transparent.) *)
+Definition forced_warnings (fs : fsys) (e : entry) : list wrec :=
+  flat_map (fun n => match search fs (e_dirs e) (n, dirname (e_file e), false) with
+                     | None => [WMissingForced (e_file e) n] | Some _ => [] end) (e_incs e).
+
+Record run_out := { o_db : list wrec; o_parse : list wrec; o_inc : list wrec; o_forced : list wrec }.
 
 Definition run_find_M (c : cfs) (fuel : nat) (codebase : list path) (pls : list (string * list dbentry)) : res run_out :=
   let fs := fs_of c in
@@ -294,7 +304,7 @@ Definition run_find_M (c : cfs) (fuel : nat) (codebase : list path) (pls : list 
           | Err x => Err x
           | Ok (evs, visited) =>
               Ok {| o_db := wdb; o_parse := parse_all c (parsed_files codebase es visited);
-                    o_inc := map (render_event fs) evs |}
+                    o_inc := map (render_event fs) evs; o_forced := flat_map (forced_warnings fs) es |}
           end
       end
   end.
@@ -335,5 +345,5 @@ Fixpoint agg_warn (ms : list metaw) (idx : list nat) (counts : list nat) : list 
 Definition closing (ms : list metaw) (rs : list lrec) : list string * list nat :=
   agg_warn ms (seq 0 (List.length ms)) (agg_run ms rs).
 
-Definition all_records (o : run_out) : list wrec := (o_db o ++ o_parse o ++ o_inc o)%list.
+Definition all_records (o : run_out) : list wrec := (o_db o ++ o_parse o ++ o_inc o ++ o_forced o)%list.
 Definition as_lrecs (ws : list wrec) : list lrec := map (fun w => (true, msg_of w)) ws.
